@@ -238,6 +238,12 @@ def run_case(case) -> Outcome:
                     if cmaps[m].enabled:
                         c_subscribed[m].add(op["cob"])
                 feats.add("reconfigured")
+            elif kind == "startstop":
+                # a map that was transmitting periodically for a while and has been stopped again
+                # receives like any other
+                cmaps[m].start(op.get("p", 0.5))
+                cmaps[m].stop()
+                feats.add("restarted")
             elif kind == "callback":
                 k = len(callbacks[m])
                 callbacks[m].append(k)
@@ -362,7 +368,7 @@ def case_strategy(draw):
     ops = []
     for _ in range(draw(st.integers(1, 16))):
         kind = draw(st.sampled_from(["write", "write", "transmit", "transmit", "raw", "reconfigure", "callback",
-                                     "rtr", "wait"]))
+                                     "rtr", "wait", "startstop"]))
         m = draw(st.integers(0, nmaps - 1))
         if kind == "write":
             j = draw(st.integers(0, len(maps[m]["layout"]) - 1))
@@ -399,7 +405,8 @@ def enum_cases():
                            {"op": "write", "m": 0, "j": 1, "v": -16, "via": "name"}, {"op": "transmit", "m": 0},
                            {"op": "rtr", "m": 0}]}
     yield {"maps": [{"cob": 0x186, "layout": lay}, {"cob": 0x286, "layout": lay}],
-           "ops": [{"op": "callback", "m": 0}, {"op": "callback", "m": 1}, {"op": "callback", "m": 0},
+           "ops": [{"op": "startstop", "m": 0},
+                   {"op": "callback", "m": 0}, {"op": "callback", "m": 1}, {"op": "callback", "m": 0},
                    {"op": "write", "m": 0, "j": 2, "v": -32768}, {"op": "transmit", "m": 0},
                    {"op": "reconfigure", "m": 0, "cob": 0x286}, {"op": "reconfigure", "m": 1, "cob": 0x186},
                    {"op": "write", "m": 1, "j": 0, "v": 5}, {"op": "transmit", "m": 0}, {"op": "transmit", "m": 1},
